@@ -299,6 +299,11 @@ func F4(maxLen int, variants []string) []*Case {
 		func() *ag.Expr { return lit("é汉") },
 		func() *ag.Expr { return ag.C(ag.R('à', 'ü')) },
 		func() *ag.Expr { return ag.LI("z") },
+		// reversed ranges denote the empty set
+		func() *ag.Expr { return ag.C(ag.R('z', 'a')) },
+		func() *ag.Expr { return ag.C(ag.R('9', '0'), one('b')) },
+		func() *ag.Expr { return ag.CN(ag.R('z', 'a')) },
+		func() *ag.Expr { return ag.C(ag.R('a', 'c'), ag.R('z', 'y')) },
 	}
 	var out []*Case
 	idx := 0
@@ -785,6 +790,10 @@ func NestedCaptures(maxLen int, variants []string) []*Case {
 		ag.G("NC/10", ag.Rule{Name: "S", Body: ag.S(cap(e()), ag.U(ag.Not, ag.S(cap(b()), c())), act(), b())}),
 		ag.G("NC/11", ag.Rule{Name: "S", Body: ag.S(ag.U(ag.Plus, ag.S(cap(ag.U(ag.Plus, b())), act(), ag.U(ag.Opt, c()))), ag.U(ag.Not, ag.D()))}),
 		ag.G("NC/12", ag.Rule{Name: "S", Body: ag.S(ag.U(ag.Opt, ag.S(cap(b()), act())), ag.U(ag.Star, ag.S(cap(e()), act())))}),
+		// captures that are empty, by construction or on some inputs, after a non-empty one
+		ag.G("NC/13", ag.Rule{Name: "S", Body: ag.S(cap(e()), act(), cap(ag.E()), act(), ag.U(ag.Opt, b()))}),
+		ag.G("NC/14", ag.Rule{Name: "S", Body: ag.U(ag.Plus, ag.S(cap(ag.U(ag.Plus, e())), act(), c(), cap(ag.U(ag.Star, b())), act(), ag.U(ag.Opt, c())))}),
+		ag.G("NC/15", ag.Rule{Name: "S", Body: ag.S(cap(b()), act(), cap(ag.U(ag.Opt, e())), act(), cap(ag.U(ag.And, b())), act(), b())}),
 	}
 	var out []*Case
 	for _, g := range gs {
@@ -869,6 +878,130 @@ func F4L(maxLen int, variants []string) []*Case {
 			}
 			out = append(out, &Case{Family: "F4L", G: g, Sigma: sigma, MaxLen: maxLen, Variants: variants, Mode: spec.ModeBehaviour})
 		}
+	}
+	return out
+}
+
+
+// ---------------------------------------------------------------- F17: many actions; F18: positions in multi-line text
+
+// F17: more than ten actions and several captures in one grammar (action rules are numbered and
+// named ActionN: two-digit numbers sort and print differently), in loops, after optional parts and
+// in later alternatives.
+func F17(maxLen int, variants []string) []*Case {
+	a := ag.Action
+	cp := func(e *ag.Expr) *ag.Expr { return ag.U(ag.Cap, e) }
+	item := ag.A(
+		ag.S(cp(lit("a")), a(), ag.U(ag.Opt, lit("b")), a()),
+		ag.S(cp(ag.U(ag.Plus, lit("c"))), a(), a()),
+		ag.S(lit("d"), a(), cp(lit("e")), a(), a()),
+		ag.S(lit("f"), a(), a(), a(), a(), a(), a()),
+	)
+	g1 := ag.G("F17/0", ag.Rule{Name: "S", Body: ag.S(ag.U(ag.Plus, ag.N("I")), ag.U(ag.Not, ag.D()))}, ag.Rule{Name: "I", Body: item})
+	g1.Number()
+	// the same actions spread over twelve rules
+	var rules []ag.Rule
+	var alts []*ag.Expr
+	for i := 0; i < 12; i++ {
+		name := fmt.Sprintf("R%d", i)
+		alts = append(alts, ag.N(name))
+		c := string(rune('a' + i%6))
+		body := ag.S(lit(c), lit(string(rune('a'+i/6))), a())
+		if i%3 == 0 {
+			body = ag.S(cp(lit(c)), lit(string(rune('a'+i/6))), a())
+		}
+		rules = append(rules, ag.Rule{Name: name, Body: body})
+	}
+	g2 := ag.G("F17/1", append([]ag.Rule{{Name: "S", Body: ag.S(ag.U(ag.Plus, ag.A(alts...)), ag.U(ag.Not, ag.D()))}}, rules...)...)
+	g2.Number()
+	var out []*Case
+	for _, g := range []*ag.Grammar{g1, g2} {
+		if wellFormed(g) {
+			out = append(out, &Case{Family: "F17", G: g, Sigma: strs('a', 'b', 'c', 'd', 'e', 'f'), MaxLen: maxLen, Variants: variants, Mode: spec.ModeBehaviour, Entries: []string{"I", "R0", "R11"}})
+		}
+	}
+	return out
+}
+
+// F18: tokens that begin and end on different lines of multi-byte text, failures on every line
+// and column (the error message reports 1-based line and column of both ends).
+func F18(maxLen int, variants []string) []*Case {
+	w := func() *ag.Expr { return ag.U(ag.Plus, ag.A(lit("a"), lit("é"))) }
+	g1 := ag.G("F18/0",
+		ag.Rule{Name: "S", Body: ag.S(ag.N("P"), lit("x"), ag.U(ag.Not, ag.D()))},
+		ag.Rule{Name: "P", Body: ag.U(ag.Plus, ag.S(ag.N("W"), ag.N("N")))},
+		ag.Rule{Name: "W", Body: w()},
+		ag.Rule{Name: "N", Body: lit("\n")})
+	g2 := ag.G("F18/1",
+		ag.Rule{Name: "S", Body: ag.S(ag.U(ag.Star, ag.N("L")), lit("x"))},
+		ag.Rule{Name: "L", Body: ag.S(ag.U(ag.Star, ag.N("W")), ag.U(ag.Cap, lit("\n")))},
+		ag.Rule{Name: "W", Body: ag.A(lit("a"), lit("é"), ag.S(lit("\r"), ag.U(ag.And, lit("\n"))))})
+	var out []*Case
+	for _, g := range []*ag.Grammar{g1, g2} {
+		g.Number()
+		if wellFormed(g) {
+			sigma := []string{"a", "é", "\n", "x"}
+			if g == g2 {
+				sigma = append(sigma, "\r")
+			}
+			out = append(out, &Case{Family: "F18", G: g, Sigma: sigma, MaxLen: maxLen, Variants: variants, Mode: spec.ModeBehaviour, Entries: []string{"P", "L"}})
+		}
+	}
+	return out
+}
+
+
+// ---------------------------------------------------------------- F19: choices over wide classes
+
+// F19: ordered choices of three pairwise disjoint classes that are wide (thousands of code points),
+// start at 0, end at U+10FFFF or span the surrogate block - the -switch pass turns the smaller ones
+// into case labels by enumerating code points. Inputs over all range ends and their neighbours
+// (incl. U+D7FF, U+E000, U+E001).
+func F19(maxLen int, variants []string) []*Case {
+	pool := []func() *ag.Expr{
+		func() *ag.Expr { return rng('a', 'z') },
+		func() *ag.Expr { return rng(0x100, 0x1FFF) },
+		func() *ag.Expr { return rng(0xD000, 0xE0FF) },
+		func() *ag.Expr { return rng(0xE100, 0x10FFFF) },
+		func() *ag.Expr { return rng(0, 0x20) },
+		func() *ag.Expr { return rng(0x2000, 0xCFFF) },
+		func() *ag.Expr { return ag.C(ag.R(0x80, 0xFF), ag.R('A', 'Z')) },
+	}
+	var out []*Case
+	idx := 0
+	for i := range pool {
+		for j := range pool {
+			for k := range pool {
+				if i == j || j == k || i == k {
+					continue
+				}
+				g := single("F19", idx, ag.S(ag.A(pool[i](), pool[j](), pool[k]()), ag.U(ag.Opt, lit("y")), ag.U(ag.Not, ag.D())))
+				idx++
+				out = append(out, &Case{Family: "F19", G: g, Sigma: sigmaOf(g, 24, 'y'), MaxLen: maxLen, Variants: variants, Mode: spec.ModeBehaviour})
+			}
+		}
+	}
+	return out
+}
+
+
+// ---------------------------------------------------------------- F20: text that is hostile to printers
+
+// F20: accepted inputs containing printf verbs, quotes, backslashes and control characters, printed
+// through every printer including PrintSyntaxTree on standard output (plain and Pretty).
+func F20(maxLen int, variants []string) []*Case {
+	var out []*Case
+	for i, sigma := range [][]string{{"%", "d", "s", "!"}, {"\"", "\\", "n", "'"}, {"\n", "\t", "\x00", "é"}, {"%", "v", "(", "\x1b"}} {
+		var alts []*ag.Expr
+		for _, c := range sigma {
+			alts = append(alts, lit(c))
+		}
+		g := ag.G(fmt.Sprintf("F20/%d", i),
+			ag.Rule{Name: "S", Body: ag.S(ag.U(ag.Plus, ag.N("W")), ag.U(ag.Not, ag.D()))},
+			ag.Rule{Name: "W", Body: ag.S(ag.N("C"), ag.U(ag.Opt, ag.N("C")))},
+			ag.Rule{Name: "C", Body: ag.A(alts...)})
+		g.Number()
+		out = append(out, &Case{Family: "F20", G: g, Sigma: sigma, MaxLen: maxLen, Variants: variants, Mode: spec.ModeBehaviour, Print: true, Entries: []string{"W"}})
 	}
 	return out
 }
